@@ -205,11 +205,11 @@ theorem C11_stale_before_reset :
 
 /-! ## Obligations on the regenerated facts -/
 
-/-- the entries of `known_findings.json` for C11 as they appear in the facts: the nine cache
-variables of package `node` -/
+/-- the entries of `known_findings.json` for C11 as they appear in the facts: the nine
+superglobals served from package-level variables of package `node` (whatever the variables are called) -/
 def Known : List String :=
-  ["shared:getValue", "shared:postValue", "shared:cookieValue", "shared:serverValue", "shared:requestValue",
-   "shared:filesValue", "shared:sessionValue", "shared:envValue", "shared:globalsValue"]
+  ["shared:$_GET", "shared:$_POST", "shared:$_COOKIE", "shared:$_SERVER", "shared:$_REQUEST",
+   "shared:$_FILES", "shared:$_SESSION", "shared:$_ENV", "shared:$GLOBALS"]
 
 /-- **Obligation** (`violations facts ⊆ Known`, DESIGN §2.6): the only isolation violations
 in the current source are the known package-level superglobal caches — every cache variable
@@ -253,14 +253,14 @@ def privWorld : World where
 
 example : (∀ k, privWorld.scope k = .perRequest) ∧
     response (run privWorld (init privWorld) ([0, 0, 0, 0, 0] ++ [1, 1, 1, 1, 1] ++ [2, 2, 2, 2, 2] ++
-      [0, 1, 2, 0, 1, 2, 0, 1, 2, 0, 1, 2, 0, 1, 2, 0, 1, 2])) 1
+      [0, 1, 2, 0, 1, 2, 0, 1, 2, 0, 1, 2, 0, 1, 2, 0, 1, 2, 0, 1, 2, 0, 1, 2])) 1
       = [some 8, some 71, some 41, some 71, some 71] ∧
     soloResponse privWorld 1 = [some 8, some 71, some 41, some 71, some 71] := by
   refine ⟨fun _ => rfl, by decide, by decide⟩
 
 /-- the same programs on package-level caches: request 1 sees request 2's session value and request 0's `$_REQUEST` -/
 example : response (run { privWorld with scope := fun _ => .packageLevel } (init { privWorld with scope := fun _ => .packageLevel })
-      ([0, 0, 0, 0, 0] ++ [1, 1, 1, 1, 1] ++ [2, 2, 2, 2, 2] ++ [0, 1, 2, 0, 1, 2, 0, 1, 2, 0, 1, 2, 0, 1, 2, 0, 1, 2])) 1
+      ([0, 0, 0, 0, 0] ++ [1, 1, 1, 1, 1] ++ [2, 2, 2, 2, 2] ++ [0, 1, 2, 0, 1, 2, 0, 1, 2, 0, 1, 2, 0, 1, 2, 0, 1, 2, 0, 1, 2, 0, 1, 2])) 1
       ≠ soloResponse privWorld 1 := by decide
 
 /-- `C11_noninterference_partial` applies to a superglobal-free handler next to leaking ones -/
